@@ -11,7 +11,7 @@
     Oriented regions: the limits of an axis may descend; [mins]/[maxs] are the smaller/larger limit of every axis (the box spanned by the limits),
     [descending lo hi] counts the axes with descending limits. *)
 From Coq Require Import Reals ZArith List.
-From LP Require Import Num NumR C13_Model C14_Model C14_Proofs C14_Proofs_Hist C14_Proofs_Orient C14_Proofs_Rebin.
+From LP Require Import Num NumR C13_Model C14_Model C14_Proofs C14_Proofs_Hist C14_Proofs_Orient C14_Proofs_Rebin C14_Proofs_Front.
 Import ListNotations.
 Local Open Scope R_scope.
 
@@ -243,3 +243,35 @@ Theorem C14_vegas_points_inside (us : Z -> R) : (forall k, 0 < us k < 1) -> fora
   integrate_mc ROps us s M_Vegas f region ncalls = integrate_mc ROps us s M_Vegas f' region ncalls.
 Proof. exact (integrate_mc_vegas_points_inside us). Qed.
 Print Assumptions C14_vegas_points_inside.
+
+(** "evaluate the integrand only at points inside the given hyper-rectangle" and "the two- and three-dimensional front ends pass the region in the right order", END TO END
+    through the front ends: Integrate_2D / Integrate_3D (C13_Model.integrate_2d / integrate_3d) with the method "Monte-Carlo", on top of this model's Integrate_MC started
+    from ANY statics [s] ([mc_of us s]: also a call made from the integrand of another integration under way, through the same front end or another one — in the model
+    the region is a value built afresh by each call): two integrands that agree on the rectangle spanned by the limits (whatever their order) give the same result ... *)
+Theorem C14_front_2d_plain_mc_points_inside (us : Z -> R) : (forall k, 0 <= us k < 1) ->
+  forall (I : backend -> (R -> res R) -> R -> R -> res R) (s : vstate) (f f' : R -> R -> R) (x1 x2 y1 y2 : R) (p : Z),
+  (forall x y, Rmin x1 x2 <= x <= Rmax x1 x2 -> Rmin y1 y2 <= y <= Rmax y1 y2 -> f x y = f' x y) ->
+  integrate_2d ROps I (mc_of us s) M_MonteCarlo f x1 x2 y1 y2 p = integrate_2d ROps I (mc_of us s) M_MonteCarlo f' x1 x2 y1 y2 p.
+Proof. exact (front_2d_plain_mc_points_inside us). Qed.
+Print Assumptions C14_front_2d_plain_mc_points_inside.
+
+Theorem C14_front_3d_plain_mc_points_inside (us : Z -> R) : (forall k, 0 <= us k < 1) ->
+  forall (I : backend -> (R -> res R) -> R -> R -> res R) (s : vstate) (f f' : R -> R -> R -> R) (x1 x2 y1 y2 z1 z2 : R) (p : Z),
+  (forall x y z, Rmin x1 x2 <= x <= Rmax x1 x2 -> Rmin y1 y2 <= y <= Rmax y1 y2 -> Rmin z1 z2 <= z <= Rmax z1 z2 -> f x y z = f' x y z) ->
+  integrate_3d ROps I (mc_of us s) M_MonteCarlo f x1 x2 y1 y2 z1 z2 p = integrate_3d ROps I (mc_of us s) M_MonteCarlo f' x1 x2 y1 y2 z1 z2 p.
+Proof. exact (front_3d_plain_mc_points_inside us). Qed.
+Print Assumptions C14_front_3d_plain_mc_points_inside.
+
+(** (non-vacuity: two integrands that agree on [0,1] x [2,3] and differ outside) *)
+Example C14_front_2d_points_inside_example :
+  (forall x y : R, Rmin 0 1 <= x <= Rmax 0 1 -> Rmin 2 3 <= y <= Rmax 2 3 -> ex_f x y = ex_f' x y) /\ ex_f (-1) 2 <> ex_f' (-1) 2.
+Proof. exact front_2d_points_inside_example. Qed.
+
+(** ... and "integrate constants exactly" through the front ends, every stream, every statics, every budget p >= 0 (0 = the default 30000 calls), limits in any order:
+    the oriented volume times the constant.  (Miser and Vegas through the front ends: C14_front_end_regions + the theorems on Integrate_MC above; not restated end to end.) *)
+Theorem C14_front_plain_mc_constant_exact (us : Z -> R) (I : backend -> (R -> res R) -> R -> R -> res R) (s : vstate) (c x1 x2 y1 y2 z1 z2 : R) (p : Z) :
+  (0 <= p)%Z ->
+  integrate_2d ROps I (mc_of us s) M_MonteCarlo (fun _ _ => c) x1 x2 y1 y2 p = Ok ((x2 - x1) * (y2 - y1) * c) /\
+  integrate_3d ROps I (mc_of us s) M_MonteCarlo (fun _ _ _ => c) x1 x2 y1 y2 z1 z2 p = Ok ((x2 - x1) * (y2 - y1) * (z2 - z1) * c).
+Proof. exact (front_plain_mc_constant_exact us I s c x1 x2 y1 y2 z1 z2 p). Qed.
+Print Assumptions C14_front_plain_mc_constant_exact.
